@@ -128,6 +128,8 @@ type Result struct {
 	Trace          []string
 	Panics         []ThreadPanic
 	FinalKey       uint64
+	TimerEarly     bool // a virtual timer fired although another thread could still run
+	TimerFired     bool
 }
 
 // Choices returns the chosen indices of the execution.
@@ -421,6 +423,14 @@ func (s *sched) loop() {
 			}
 		}
 		next := s.threads[en[choice]]
+		if next.timer {
+			s.res.TimerFired = true
+			for _, id := range en {
+				if !s.threads[id].timer {
+					s.res.TimerEarly = true
+				}
+			}
+		}
 		s.res.Points = append(s.res.Points, Point{KeyBefore: s.key(), Enabled: en, Chosen: choice, RunningEnabled: runningEnabled, Op: opNames[next.pend.op]})
 		if s.trace {
 			s.res.Trace = append(s.res.Trace, s.describe(next))
